@@ -33,6 +33,9 @@ enum Op {
     /// one primitive handed to the visitor by a self-describing format other than
     /// serde_json text / bincode (see codec::SimDe)
     ForeignValue { ty: Ty, kind: String, raw: i64, text: String, human: bool },
+    /// several values of one type in ONE stream (a Vec, a Vec of Options, and a tuple with a
+    /// sentinel between two values), written and read back as a whole
+    WriteTable { ty: Ty, raws: Vec<i64>, codec: Codec },
     /// a value RETURNED by the crate's own arithmetic / conversion is serialized as it comes
     WriteDerived { kind: String, a: i64, b: i64, codec: Codec },
     Sync,
@@ -132,12 +135,13 @@ fn static_str(pool: &[&'static str], s: &str) -> Option<&'static str> {
     pool.iter().copied().find(|p| *p == s)
 }
 
-const CLASSES: [&str; 5] = ["panic", "out_of_range", "roundtrip", "serialize_failed", "other"];
+const CLASSES: [&str; 6] = ["panic", "out_of_range", "roundtrip", "serialize_failed", "layout", "other"];
 const OUTCOME_NAMES: [&str; 6] = ["panic", "ok_out_of_range", "ok_other_in_range", "ok_same", "ok_in_range_damaged_or_foreign", "err"];
-const PROBE_NAMES: [&str; 11] = [
+const PROBE_NAMES: [&str; 12] = [
     "decoded_exactly_min", "decoded_exactly_max", "raw_payload_one_past_a_limit", "raw_payload_integer_extreme",
     "oracle_payload_with_subsecond_part", "malformed_or_out_of_range_text_payload", "json_payload_that_is_not_a_string",
-    "value_handed_over_by_another_format", "run_on_a_fresh_thread", "value_produced_by_arithmetic_serialized", "other",
+    "value_handed_over_by_another_format", "run_on_a_fresh_thread", "value_produced_by_arithmetic_serialized",
+    "table_of_values_in_one_stream", "other",
 ];
 
 impl Stats {
@@ -519,6 +523,28 @@ fn exec_op(op: &Op, w: &mut World, enumerate: bool, stats: &mut Stats, log: &mut
                             detail: format!("{} serialized to {} bytes in the compact binary form, expected the raw {}-byte count", ty.name(), len, ty.bin_width()),
                         });
                     }
+                    // the documented forms themselves, not just "it reads back"
+                    if !fired {
+                        if *codec == Codec::Bincode {
+                            let want: Vec<u8> = if ty.bin_width() == 4 { (*raw as i32).to_le_bytes().to_vec() } else { raw.to_le_bytes().to_vec() };
+                            if clean != want {
+                                return Some(Violation {
+                                    class: "layout",
+                                    sig: format!("binary_form:{}", ty.name()),
+                                    detail: format!("{} with raw count {} serialized in the compact binary form as {:02x?}, expected the raw count {:02x?}", ty.name(), raw, clean, want),
+                                });
+                            }
+                        } else if let Some(text) = expected_text(*ty, *raw) {
+                            let want = format!("\"{}\"", text);
+                            if clean != want.as_bytes() {
+                                return Some(Violation {
+                                    class: "layout",
+                                    sig: format!("text_form:{}", ty.name()),
+                                    detail: format!("{} with raw count {} serialized in the human-readable form as {}, the documented fixed layout gives {}", ty.name(), raw, show_bytes(&clean), want),
+                                });
+                            }
+                        }
+                    }
                     if enumerate {
                         // immediate fault-free read-back, then every single at-rest fault
                         let got = codec::decode_slice(*ty, *codec, &clean);
@@ -621,6 +647,23 @@ fn exec_op(op: &Op, w: &mut World, enumerate: bool, stats: &mut Stats, log: &mut
             log.write(b"ft");
             log.write(text.as_bytes());
             None
+        }
+        Op::WriteTable { ty, raws, codec } => {
+            stats.encodes += 1;
+            stats.decodes += 1;
+            stats.probe("table_of_values_in_one_stream");
+            log.write(b"wt");
+            for r in raws {
+                log.write_i64(*r);
+            }
+            match codec::table_round_trip(*ty, raws, *codec) {
+                Ok(()) => None,
+                Err((class, msg)) => Some(Violation {
+                    class,
+                    sig: format!("table:{}:{}:{}", class, ty.name(), codec.name()),
+                    detail: format!("{} values {:?} in one {} stream: {}", ty.name(), raws, codec.name(), msg),
+                }),
+            }
         }
         Op::WriteDerived { kind, a, b, codec } => {
             let off = w.disk.data.len();
@@ -967,6 +1010,11 @@ fn simulate_run(seed: u64, run: u64, fault_free: bool, stats: &mut Stats) -> (Sc
                     let texts = foreign_texts(ty);
                     step!(Op::ForeignText { ty, text: rng.pick(&texts).to_string() });
                 }
+            } else if rng.chance(1, 16) {
+                let n = 1 + rng.usize_below(5);
+                let raws: Vec<i64> = (0..n).map(|_| draw_value(&mut rng, ty)).collect();
+                let codec = if rng.bool() { Codec::Json } else { Codec::Bincode };
+                step!(Op::WriteTable { ty, raws, codec });
             } else if rng.chance(1, 10) {
                 // a value returned by the crate's own arithmetic, with operands that tend to
                 // land the result on a boundary
@@ -1222,6 +1270,7 @@ fn script_to_json(s: &Script) -> Value {
             Op::ForeignText { ty, text } => json!({"op": "foreign_text", "type": ty.name(), "text": text}),
             Op::ForeignJson { ty, json } => json!({"op": "foreign_json", "type": ty.name(), "json": json}),
             Op::ForeignValue { ty, kind, raw, text, human } => json!({"op": "foreign_value", "type": ty.name(), "kind": kind, "raw": raw, "text": text, "human_readable": human}),
+            Op::WriteTable { ty, raws, codec } => json!({"op": "write_table", "type": ty.name(), "raws": raws, "codec": codec.name()}),
             Op::WriteDerived { kind, a, b, codec } => json!({"op": "write_derived", "kind": kind, "a": a, "b": b, "codec": codec.name()}),
             Op::Sync => json!({"op": "sync"}),
             Op::NewDisk => json!({"op": "new_disk"}),
@@ -1258,6 +1307,11 @@ fn script_from_json(v: &Value) -> Result<Script, String> {
                 raw: o["raw"].as_i64().ok_or("raw")?,
                 text: o["text"].as_str().ok_or("text")?.to_string(),
                 human: o["human_readable"].as_bool().unwrap_or(true),
+            },
+            "write_table" => Op::WriteTable {
+                ty: ty()?,
+                raws: o["raws"].as_array().ok_or("raws")?.iter().filter_map(|x| x.as_i64()).collect(),
+                codec: Codec::from_name(o["codec"].as_str().unwrap_or("")).ok_or("codec")?,
             },
             "write_derived" => Op::WriteDerived {
                 kind: o["kind"].as_str().ok_or("kind")?.to_string(),
